@@ -63,8 +63,19 @@ def run(tier, seed):
         for k in ("gvt_reports", "rollbacks", "anti_messages", "cancelled_while_queued"):
             if hc.counters_nz(m, k) == 0:
                 raise vc.EngineError(f"vacuous: no execution with '{k}'")
-        if m["counters"]["gvt_reports"][0] < 3 * m["executions"]:
-            raise vc.EngineError("vacuous: fewer than 3 GVT reports per execution on average")
+        if m["counters"]["gvt_reports"][0] < 2 * m["executions"]:
+            raise vc.EngineError("vacuous: fewer than 2 GVT reports per execution on average")
+    # (c) the coloured message counting across ranks: a message of the old colour delayed across the first reduction, etc.
+    import os
+    b2 = hc.build(os.path.join(d, "r2"), ranks=2)
+    sc2 = [hc.scen("r2x1_m0", T(2, [1, 2], [2, 1, 7], P=5, K=5, H=6), T=1, ck=2, p=1, d=1, j=4, deadline=900),
+           hc.scen("r2x1_trickle", T(2, [2, 1], [2, 1, 2], P=5, K=100, H=10), T=1, ck=2, p=1, d=1, j=4, deadline=900)]
+    if tier != "quick":
+        sc2 += [hc.scen("r2x2_m3", T(4, [1, 2, 7, 1], [2, 1, 7], P=5, K=5, H=4), T=2, ck=2, p=1, d=1, j=16, deadline=2400),
+                hc.scen("r2x1_m0_d2", T(2, [1, 2], [2, 1, 7], P=5, K=5, H=6), T=1, ck=2, p=1, d=2, j=16, deadline=2400)]
+    reps2, m2, viol2 = vc.rsched_scenarios(PID, "h_run2", b2, sc2, d, workers=2)
+    reps += reps2
+    viol += viol2
     # (b) the thread-phase protocol with the real queue, closed by a cyclic driver: complete-state search
     hg = build_hgvt(d)
     if tier == "quick":
@@ -95,12 +106,16 @@ def run(tier, seed):
     cov["states"] += sum(r["distinct_states"] for r in greps)
     vc.write_evidence(PID, tier, "model_checking", cov,
                       ["sequentially consistent interleavings of the hooked atomics; the relaxed orderings in gvt.c are not modelled",
-                       "one rank here; the coloured message counting across ranks is exercised by C02",
+                       "<= 2 ranks for the coloured message counting",
                        "rounds whose value is 0.0 and rounds completed inside gvt_msg_drain are not reported to anybody by design"],
                       time.time() - t0, n, seed)
     return 1 if n else 0
 
 
 def replay(path):
+    import os
     d = vc.fresh_dir(PID + "_replay")
-    return vc.rsched_replay(hc.build(d), path)
+    name = os.path.basename(path)
+    if name.startswith("gvt_state"):
+        return vc.rsched_replay(build_hgvt(d), path)
+    return vc.rsched_replay(hc.build(d, ranks=2 if name.startswith("r2") else 1), path)
